@@ -28,6 +28,10 @@ fn dist_names() -> Vec<Vec<u8>> {
         // names that are trailing sub-paths of one another are different files
         b"x.tgz".to_vec(),
         b"dir/x.tgz".to_vec(),
+        // a leading "./" is part of the spelling (same file as without it), "../" is not
+        b"./x.tgz".to_vec(),
+        b"./sub/dir/x.tgz".to_vec(),
+        b"./dotted-1.0.tgz".to_vec(),
         b"v2/foo-1.0.tar.gz".to_vec(),
         b"v2/v2/foo-1.0.tar.gz".to_vec(),
     ]
@@ -348,6 +352,24 @@ fn hashes(content: &[u8], patch: bool) -> String {
         .join(",")
 }
 
+/// a patch-like text whose `$NetBSD` marker starts at byte offset `at`
+fn big_with_marker(at: usize) -> Vec<u8> {
+    let mut v: Vec<u8> = vec![];
+    while v.len() + 40 < at {
+        v.extend(b"+ some ordinary patch line, caf\xc3\xa9\n");
+    }
+    while v.len() < at.saturating_sub(2) {
+        v.push(b'x');
+    }
+    if v.len() < at {
+        v.extend(b"\n#"[..at - v.len()].iter());
+    }
+    v.extend(b"$NetBSD: patch-aa,v 1.3 2024/01/01 00:00:00 x Exp $\n+kept line after the id\n");
+    v.extend(vec![b'y'; 300]);
+    v.push(b'\n');
+    v
+}
+
 fn gen_c12(tier: &str, rng: &mut Rng, emit: &mut dyn FnMut(Op)) {
     let thorough = tier == "thorough";
     let contents: Vec<Vec<u8>> = vec![
@@ -365,6 +387,11 @@ fn gen_c12(tier: &str, rng: &mut Rng, emit: &mut dyn FnMut(Op)) {
         b"line one\nlast line without newline".to_vec(),
         // '$NetBSD' after other '$' signs / doubled '$' / restarts of a near miss: still a marker line
         b"+.if ${FOO} > 5.4 # $NetBSD$\nkeep\n$$NetBSD: Makefile,v 1.2 $$\nkeep2\n$Net$NetBSD\n$NetBS$NetBSD x\n".to_vec(),
+        // files larger than one 8 KiB read buffer: the marker (7 bytes) cut by the 8192 / 16384
+        // boundary at each of its inner positions, a marker line starting exactly there, a
+        // multi-byte character across it
+        big_with_marker(8192 - 3), big_with_marker(8192 - 6), big_with_marker(8192 - 1), big_with_marker(8192),
+        big_with_marker(16384 - 4), big_with_marker(8192 - 7),
     ];
     let names: [&[u8]; 8] = [b"c.tgz", b"b/c.tgz", b"a/b/c.tgz", b"patch-aa", b"sub/patch-ab", b"emul-linux-patch-a", b"d.tgz", b"patch-2.0.tar.gz"];
     for _ in 0..(if thorough { 4000 } else { 350 }) {
